@@ -330,6 +330,12 @@ class GenInterp:
             return self.flags["commuting_blocks"]
         if isinstance(t, ast.UnaryOp) and isinstance(t.op, ast.Not):
             return not self.flag(t.operand)
+        from .dsl import _aggregate_form
+        agg = _aggregate_form(t)
+        if agg is not None:
+            # a test over ALL blocks: evaluated in the configuration where every block carries the row block's flag (a feasible
+            # configuration, so nothing found there is a false alarm; E1 decides the mixed configurations)
+            return self.flags["commuting_blocks"] if agg[1] else not self.flags["commuting_blocks"]
         raise AnalysisError(RULE, f"{self.where}: flag `{txt}` not understood")
 
     def index_form(self, sl: ast.AST) -> bool:
